@@ -437,6 +437,20 @@ RCP<const Basic> div(const RCP<const Basic> &a, const RCP<const Basic> &b)
             return ComplexInf;
         }
     }
+    if (is_a_Number(*a) and is_a_Number(*b)) {
+        const Number &na = down_cast<const Number &>(*a);
+        const Number &nb = down_cast<const Number &>(*b);
+        // A quotient involving a floating point number is one correctly
+        // rounded division.  a * b**-1 rounds twice, and rounds the
+        // reciprocal at the precision of b alone.
+        // (an exact zero numerator stays exact: 0 * float is 0)
+        if ((not na.is_exact() or not nb.is_exact())
+            and not (na.is_exact() and na.is_zero()) and not is_a<NaN>(*a)
+            and not is_a<NaN>(*b) and not is_a<Infty>(*a)
+            and not is_a<Infty>(*b)) {
+            return na.div(nb);
+        }
+    }
     return mul(a, pow(b, minus_one));
 }
 
